@@ -3,6 +3,7 @@ package exec
 import (
 	"fmt"
 	"go/types"
+	"os"
 	"strings"
 
 	"gosmt/sym"
@@ -243,6 +244,16 @@ func (m *Machine) vocab(name string) (Intrinsic, bool) {
 		return func(m *Machine, wl *worklist, it *Item, fn *ssa.Function, args []Value, rr int) bool {
 			tag := m.strArg(args[0], fn, it, 0)
 			m.ghostLog = append(m.ghostLog, ghostRec{it.G, "putf:" + tag, []Value{args[1]}})
+			m.finishInline(it, rr, nil)
+			return false
+		}, true
+	case "vTrace":
+		// debugging aid: print the (restricted) value of an int expression when executed (no effect on the run)
+		return func(m *Machine, wl *worklist, it *Item, fn *ssa.Function, args []Value, rr int) bool {
+			tag := m.strArg(args[0], fn, it, 0)
+			if os.Getenv("VCHECK_VTRACE") != "" {
+				fmt.Fprintf(os.Stderr, "vTrace step=%d g=%s %s = %s\n", m.step, it.Gor.Name, tag, c.StringDeep(m.Restrict(it.G, args[1]).(T), 4))
+			}
 			m.finishInline(it, rr, nil)
 			return false
 		}, true
